@@ -175,6 +175,46 @@ async fn run_sequence(seq: &[Op], multi_frame: bool) -> Result<bool, String> {
             }
         }
     }
+    // epilogue: the link closes (the remote unlinks). Every consumer that is still there is owed `unlinked` as the last item of its
+    // session -- whatever happened to the other consumers (dropped readers the runtime has not noticed yet included)
+    if link_up {
+        remote.send(ResponseMessage::<&str, i32, &[u8]>::unlinked(addr, path(), None)).await.map_err(|e| format!("epilogue: {e}"))?;
+        settle().await;
+        settle().await;
+        for (i, c) in consumers.iter_mut().enumerate() {
+            if let Some(reader) = c.reader.as_mut() {
+                c.expected.push("unlinked".into());
+                let mut empty_polls = 0;
+                loop {
+                    let item = match reader.next().now_or_never() {
+                        Some(Some(item)) => item,
+                        Some(None) => break,
+                        None => {
+                            empty_polls += 1;
+                            if empty_polls > 8 {
+                                break;
+                            }
+                            tokio::task::yield_now().await;
+                            continue;
+                        }
+                    };
+                    match item {
+                        Ok(DownlinkNotification::Linked) => c.received.push("linked".into()),
+                        Ok(DownlinkNotification::Synced) => c.received.push("synced".into()),
+                        Ok(DownlinkNotification::Unlinked) => c.received.push("unlinked".into()),
+                        Ok(DownlinkNotification::Event { body }) => c.received.push(format!("event({body})")),
+                        Err(e) => return Err(format!("epilogue: consumer {i} got a bad frame: {e}")),
+                    }
+                }
+                if c.received != c.expected {
+                    return Err(format!(
+                        "after the link closed: consumer {i} (sync={}) received {:?}, the session it is owed is {:?}",
+                        c.sync, c.received, c.expected
+                    ));
+                }
+            }
+        }
+    }
     task.abort();
     Ok(true)
 }
